@@ -95,3 +95,9 @@ VARIANTS += [
          old="                            current_mtime = os.lstat(self._lock_file).st_mtime\n",
          new="                            current_mtime = os.stat(self._lock_file, follow_symlinks=False).st_mtime\n"),
 ]
+
+VARIANTS += [
+    dict(id="c07-append-unbuffered", prop="C07", file=JF, expect="R07.1",
+         old="            with open(self._file_path, \"ab\") as f:\n",
+         new="            with open(self._file_path, \"ab\", buffering=0) as f:\n"),
+]
